@@ -275,6 +275,11 @@ def run(ctx: core.Ctx):
     if wp:
         witness = witness or dict(kind="wire", problems=wp)
 
+    # the packet itself byte for byte against Model/Packets.v and through its reference decoder
+    import packets_corr
+    npk, pbad, _pk = packets_corr.run(ctx, "c18p", 40 if ctx.quick else 600, only=("handshake",))
+    if pbad and witness is None:
+        witness = dict(kind="packet", **pbad[0])
     if witness is not None:
         core.report_violation(ctx, "connection id is not unique / not the configured one / not addressable", witness)
     if (not pr["ok"] or disagreements) and not ctx.violations:
